@@ -221,13 +221,22 @@ def oracle(uri: str, text: str) -> dict:
     def own(position):
         return bool(position is not None and isinstance(position.file, TextDocumentPath) and position.file.document.uri == uri)
 
+    def file_uri(f):
+        """the URI of the file a position lies in, stated by the harness: an editor buffer IS the URI its client sent (an opaque key,
+        whatever its spelling: literal `+`, lower-case escapes, unencoded non-ASCII letters), a file read from disk is pathlib's
+        spelling of its path. Not `position.file.as_uri()` of the buffer's path object: that is the server's own code, and the
+        expectation would follow any regression in it (both sides would then drop every declaration of the document)."""
+        if isinstance(f, TextDocumentPath):
+            return f.document.uri
+        return Path(os.path.abspath(str(f))).as_uri() if not Path(str(f)).is_absolute() else Path(str(f)).as_uri()
+
     def dinfo(td):
         if not td:
             return None
         has_file = bool(td.position and td.position.file)
         return {"comment": td.comment if td.comment else None, "deprecated": bool(td.deprecated),
-                "depFile": td.position.file.as_uri() if (isinstance(td, BaseType) and has_file) else None,
-                "loc": [td.position.file.as_uri(), pos_range(td.position)] if (has_file and isinstance(td, BaseExternalType)) else None}
+                "depFile": file_uri(td.position.file) if (isinstance(td, BaseType) and has_file) else None,
+                "loc": [file_uri(td.position.file), pos_range(td.position)] if (has_file and isinstance(td, BaseExternalType)) else None}
 
     def ref(r):
         return {"own": own(r.position), "line": r.position.start.line, "sc": r.position.start.col, "ec": r.position.end.col,
@@ -235,13 +244,13 @@ def oracle(uri: str, text: str) -> dict:
 
     def fref(f):
         return {"own": own(f.position), "line": f.position.start.line, "sc": f.position.start.col, "ec": f.position.end.col,
-                "range": pos_range(f.position), "pathText": f"```txt\n{f.path}\n```", "pathUri": f.path.as_uri()}
+                "range": pos_range(f.position), "pathText": f"```txt\n{f.path}\n```", "pathUri": file_uri(f.path)}
 
     def node(n, with_info):
         info = None
         if with_info and not (isinstance(n, Function) and n.anonymous):
             info = canon_info(n.name, expected_flat_kind(n), pos_range(n.position), is_deprecated(n), ".".join(n.namespace))
-        return {"fileUri": n.position.file.as_uri(), "sym": json.dumps(expected_symbol(n)) if not with_info else "", "info": info}
+        return {"fileUri": file_uri(n.position.file), "sym": json.dumps(expected_symbol(n)) if not with_info else "", "info": info}
 
     def parts(defs, refs, imports, ast):
         return {"defs": [node(d, True) for d in defs], "refs": [ref(r) for r in refs], "imports": [fref(f) for f in imports],
